@@ -35,6 +35,9 @@ BRIDGES = {
     "mouette/attributes/attr_corners.py::cotangent": ["cotangent_bridge", "cotangent_from_angles", "cotangent_branches_agree"],
     # whole body: header incl. default 2*pi, border loop, cached `angles` source, skip guard, corner loop
     "mouette/attributes/attr_vertices.py::angle_defects": ["angle_defects_bridge", "angle_defects_header"],
+    # whole body (guard, three sources of the face normals, header, ONE call of the translated interpolation, normalisation loop); every mode goes
+    # through Generated.C07Src.interpolate_faces_to_vertices componentwise; 'uniform' is bridged to the mean of the adjacent face normals
+    "mouette/attributes/attr_vertices.py::vertex_normals": ["vertex_normals_components", "vertex_normals_uniform", "vertex_normals_sources"],
     "mouette/attributes/interpolate.py::interpolate_vertices_to_faces": ["interpolate_vertices_to_faces_at", "interpolate_vertices_to_faces_bridge"],
     # all four weight modes are translated; 'sum' and 'uniform' are bridged to the model, 'area' / 'angle' are tied by the oracle only
     "mouette/attributes/interpolate.py::interpolate_faces_to_vertices": ["interpolate_faces_to_vertices_sum", "interpolate_faces_to_vertices_uniform"],
@@ -1480,7 +1483,6 @@ SOURCE_MAP.update({
     "mouette/geometry/geometry.py::distance_to_segment2D": _OOS + "2-D helper of the samplers",
     "mouette/geometry/geometry.py::project_to_plane": _OOS + "not reached from the attribute functions",
     # attributes
-    "mouette/attributes/attr_vertices.py::vertex_normals": "modelled",   # weighted sums of the model's face normals (harness), oracle for every weighting
     "mouette/attributes/attr_vertices.py::border_normals": _OOS + "border-curve normals are not in the statement's list of quantities",
     "mouette/attributes/attr_edges.py::cotan_weights": "modelled",       # opposite-corner expression translated (oppCorner_bridge), loop hand-modelled
     "mouette/attributes/attr_edges.py::curvature_matrices": _OOS + "curvature tensors are not in the statement's list of quantities",
